@@ -175,7 +175,12 @@ func (x *xlat) recvMutCall(n ast.Stmt, c *ast.CallExpr, lhs []ast.Expr, cur []*v
 	return wrapPres(pres, body+cont(cc), "CPanic"), true
 }
 
-func init() {
+// installRedirectTables: this unit's binding-table entries.  The tables are global and two units may bind the same key differently
+// (e.g. Document.WriteToString): the entries are installed when the package is initialised (so that the shared analysis
+// sees them) and again right before the unit is emitted.
+func init() { installRedirectTables() }
+
+func installRedirectTables() {
 	for _, t := range []string{"bytes.Buffer", "*bytes.Buffer", "*flate.Writer", "url.Values", "map[string]string", "*url.URL"} {
 		objTypes[t] = true
 	}
@@ -245,7 +250,7 @@ func init() {
 	cb("M:*dsig.SigningContext.SignString", callBind{tmpl: "(ctx_sign_string sign %s %s)", use: []int{-1, 0}, deref: map[int]bool{-1: true}, nargs: 1, typ: "res:[]byte,error"})
 
 	// BuildAuthURL obtains the document from the builder (GenBuild.v / Build.v): a parameter here
-	externCalls["BuildAuthRequestDocument"] = externBind{param: "built_doc", coq: "res (option node)", kind: "*etree.Document"}
+	externCalls["BuildAuthRequestDocument"] = externBind{param: "built_doc", coq: "res (option node)", kind: "*etree.Document", only: "rsp"}
 }
 
 // functions translated, callees first
@@ -260,6 +265,7 @@ var redirectFuncList = []string{
 }
 
 func emitRedirectFuncs(root, types *pkgFiles, env, tenv constEnv) []byte {
+	installRedirectTables()
 	x := &xlat{pkg: "saml2", structs: map[string]map[string]string{}, consts: env, tconsts: tenv, constPrefix: "c_", noNow: true,
 		vars: map[string]ast.Expr{}, funcs: map[string]*ast.FuncDecl{}, done: map[string]string{}}
 	x.addStructs(types, "types")
